@@ -234,6 +234,11 @@ pub struct Gen {
     pub step_dt: u64,
     /// recently emitted operations: redelivered verbatim as duplicate / delayed transactions
     pub recent: Vec<Op>,
+    /// one user piling up open positions (the per-user limit is 10), directly and through the
+    /// pool manager
+    pub hoard_left: u32,
+    pub hoard_done: bool,
+    pub hoarder: Option<String>,
 }
 
 fn dec(s: &str) -> Decimal {
@@ -256,7 +261,7 @@ impl Gen {
             }
         }
         let pool_rich = prof.w.contains_key("route") && rng.chance(1, 7);
-        Gen { recent: vec![], step_dt: 0, pool_rich, rng, prof, total_steps, emitted: 0, next_id: 0, disabled, draining: false, drain_phase: 0, drain_tried: Default::default(), burst_left: 0, burst_done: false }
+        Gen { hoard_left: 0, hoard_done: false, hoarder: None, recent: vec![], step_dt: 0, pool_rich, rng, prof, total_steps, emitted: 0, next_id: 0, disabled, draining: false, drain_phase: 0, drain_tried: Default::default(), burst_left: 0, burst_done: false }
     }
 
     fn uid(&mut self, p: &str) -> String {
@@ -546,7 +551,12 @@ impl Gen {
             decimals.push(k);
         }
         if which_invalid == 3 {
-            decimals.pop();
+            // one decimals entry too few, or one too many
+            if self.rng.chance(1, 2) {
+                decimals.pop();
+            } else {
+                decimals.push(*self.rng.pick(&[6u8, 18]));
+            }
         }
         let amp = if which_invalid == 4 {
             0
@@ -1391,6 +1401,55 @@ impl Gen {
         }
     }
 
+    /// one more open position for the hoarder: a direct creation while below the limit, a locked
+    /// deposit through the pool manager at / above it (or at random)
+    fn gen_hoard(&mut self, c: &SimCore) -> Option<Op> {
+        let lps = Self::lp_denoms(c);
+        if self.hoarder.is_none() {
+            let mut best: Option<(u128, String)> = None;
+            for u in c.w.a.users.iter() {
+                let t: u128 = lps.iter().map(|l| bal(&c.obs.bal, u.as_str(), l)).sum();
+                if t > 0 && best.as_ref().map(|(b, _)| t > *b).unwrap_or(true) {
+                    best = Some((t, u.to_string()));
+                }
+            }
+            self.hoarder = best.map(|(_, u)| u);
+        }
+        let who = self.hoarder.clone()?;
+        let n_open = c.obs.positions.iter().filter(|p| p.open && p.receiver.as_str() == who).count();
+        let f = &c.w.cfg.farm;
+        let dur = self.rng.range(f.min_unlocking_duration, f.max_unlocking_duration.max(f.min_unlocking_duration));
+        let held: Vec<(String, u128)> = lps.iter().map(|l| (l.clone(), bal(&c.obs.bal, &who, l))).filter(|(_, b)| *b >= 40).collect();
+        if (n_open < 10 || self.rng.chance(1, 3)) && !held.is_empty() {
+            let (lp, b) = self.rng.pick(&held).clone();
+            return Some(Op::Fm {
+                sender: who,
+                msg: FmMsg::ManagePosition { action: PositionAction::Create { identifier: None, unlocking_duration: dur, receiver: None } },
+                funds: vec![coin((b / 40).max(1), lp)],
+            });
+        }
+        // through the pool manager: a small deposit in pool proportion, locked
+        let funded: Vec<&PoolInfoResponse> =
+            c.obs.pools.iter().filter(|p| !p.total_share.amount.is_zero() && p.pool_info.assets.iter().all(|a| a.amount.u128() >= 1000)).collect();
+        let without: Vec<&&PoolInfoResponse> =
+            funded.iter().filter(|p| !c.obs.positions.iter().any(|q| q.receiver.as_str() == who && q.lp_asset.denom == p.pool_info.lp_denom)).collect();
+        let p = if !without.is_empty() && self.rng.chance(2, 3) { **self.rng.pick(&without) } else { *self.rng.pick_opt(&funded)? };
+        let mut funds: Vec<Coin> = p.pool_info.assets.iter().map(|a| coin((a.amount.u128() / 1000).max(1), a.denom.clone())).collect();
+        funds.sort_by(|a, b| a.denom.cmp(&b.denom));
+        Some(Op::Pm {
+            sender: who,
+            msg: PmMsg::ProvideLiquidity {
+                liquidity_max_slippage: None,
+                swap_max_slippage: None,
+                receiver: None,
+                pool_identifier: p.pool_info.pool_identifier.clone(),
+                unlocking_duration: Some(dur),
+                lock_position_identifier: None,
+            },
+            funds,
+        })
+    }
+
     fn pick_position(&mut self, c: &SimCore, open: Option<bool>) -> Option<mantra_dex_std::farm_manager::Position> {
         let v: Vec<&mantra_dex_std::farm_manager::Position> =
             c.obs.positions.iter().filter(|p| open.map(|o| p.open == o).unwrap_or(true)).collect();
@@ -1871,6 +1930,24 @@ impl Gen {
             (op, bdt)
         } else {
             (Op::Noop, dt)
+        };
+        // position hoarding (a sixth of the runs that create positions at all)
+        if !self.hoard_done && self.burst_left == 0 && self.emitted > self.prof.setup_steps + 2 && self.prof.w.contains_key("pos_create") && !c.obs.pools.is_empty() {
+            self.hoard_done = true;
+            if self.rng.chance(1, 6) {
+                self.hoard_left = self.rng.range(11, 15) as u32;
+            }
+        }
+        let (op, dt) = if matches!(op, Op::Noop) && self.hoard_left > 0 {
+            self.hoard_left -= 1;
+            let hdt = dt.min(self.rng.range(0, 3600));
+            self.step_dt = hdt;
+            match self.gen_hoard(c) {
+                Some(op) => (op, hdt),
+                None => (Op::Noop, dt),
+            }
+        } else {
+            (op, dt)
         };
         let bursting = !matches!(op, Op::Noop);
         let op = if bursting {
